@@ -6,6 +6,7 @@ import (
 	"sort"
 	"strconv"
 	"strings"
+	"unsafe"
 
 	clip "github.com/bolom009/go-clipper2"
 	"vsimrt"
@@ -154,6 +155,9 @@ type keptPath struct {
 }
 
 type Ctx struct {
+	scribbleSeq int
+	curKind     string
+	ranges   []addrRange
 	kept     []keptPath
 	task     int
 	pool     []*Input
@@ -751,11 +755,177 @@ func (c *Ctx) keep(op *Op, d *opDef, ob *Obj, out *Outcome) {
 		return
 	}
 	for _, p := range out.k64 {
-		c.kept = append(c.kept, keptPath{p64: p, dig: digPath64(p), op: c.opIndex, kind: op.K, obj: ob})
+		if len(p) > 0 {
+			c.kept = append(c.kept, keptPath{p64: p, dig: digPath64(p), op: c.opIndex, kind: op.K, obj: ob})
+		}
 	}
 	for _, p := range out.kD {
-		c.kept = append(c.kept, keptPath{pd: p, dig: digPathD(p), op: c.opIndex, kind: op.K, obj: ob})
+		if len(p) > 0 {
+			c.kept = append(c.kept, keptPath{pd: p, dig: digPathD(p), op: c.opIndex, kind: op.K, obj: ob})
+		}
 	}
+}
+
+type addrRange struct{ lo, hi uintptr }
+
+// inputRanges returns the memory (full capacity) of every caller-owned input
+// this context can hand out.
+func (c *Ctx) inputRanges() []addrRange {
+	if c.ranges != nil {
+		return c.ranges
+	}
+	c.ranges = []addrRange{}
+	for _, in := range c.pool {
+		if cap(in.p64) > 0 {
+			lo := uintptr(unsafe.Pointer(unsafe.SliceData(in.p64)))
+			c.ranges = append(c.ranges, addrRange{lo, lo + uintptr(cap(in.p64))*24})
+		}
+		if cap(in.pd) > 0 {
+			lo := uintptr(unsafe.Pointer(unsafe.SliceData(in.pd)))
+			c.ranges = append(c.ranges, addrRange{lo, lo + uintptr(cap(in.pd))*24})
+		}
+		for _, p := range in.p64[:cap(in.p64)] {
+			if cap(p) > 0 {
+				lo := uintptr(unsafe.Pointer(unsafe.SliceData(p)))
+				c.ranges = append(c.ranges, addrRange{lo, lo + uintptr(cap(p))*16})
+			}
+		}
+		for _, p := range in.pd[:cap(in.pd)] {
+			if cap(p) > 0 {
+				lo := uintptr(unsafe.Pointer(unsafe.SliceData(p)))
+				c.ranges = append(c.ranges, addrRange{lo, lo + uintptr(cap(p))*16})
+			}
+		}
+	}
+	return c.ranges
+}
+
+func (c *Ctx) overlapsInput(lo uintptr, n int) bool {
+	hi := lo + uintptr(n)*24 // generous: covers point arrays (16 bytes) and header arrays (24 bytes)
+	for _, r := range c.inputRanges() {
+		if lo < r.hi && r.lo < hi {
+			return true
+		}
+	}
+	return false
+}
+
+// scribbleResults is the caller doing what it may do with memory a call
+// returned to it: overwrite the points, and use the spare capacity behind
+// them. Results that share memory with a caller-owned input (several
+// functions may return their argument) are left alone, and in runs with other
+// tasks nothing another task could legitimately see is written.
+func (c *Ctx) scribbleResults(out *Outcome) {
+	if c.reuse != nil || c.private {
+		return
+	}
+	n := 0
+	// what the caller writes is its own data from now on: it is kept (as an
+	// alias with its digest) and must still be there at the end of the task -
+	// memory handed to one caller must not be handed out, or written, again
+	c.scribbleSeq++
+	tag := int64(c.task)*1000000 + int64(c.scribbleSeq)*1000
+	if !vsimrt.RaceBuild {
+		// one counter per process: a later run that is handed the same memory
+		// again writes another pattern, and the process-wide ring below notices
+		processScribbles++
+		tag = processScribbles * 1000
+	}
+	for _, p := range out.k64 {
+		full := p[:cap(p)]
+		if len(full) == 0 || c.overlapsInput(uintptr(unsafe.Pointer(unsafe.SliceData(full))), len(full)) {
+			continue
+		}
+		for j := range full {
+			full[j] = clip.Point64{X: 515151 + int64(j), Y: -626262 - tag}
+		}
+		if len(c.kept) < 4000 {
+			c.kept = append(c.kept, keptPath{p64: full, dig: digPath64(full), op: c.opIndex, kind: "memory the caller reused after " + catalogueName(c, out)})
+		}
+		rememberOwned(keptPath{p64: full, dig: digPath64(full), kind: catalogueName(c, out)})
+		n++
+	}
+	for _, p := range out.kD {
+		full := p[:cap(p)]
+		if len(full) == 0 || c.overlapsInput(uintptr(unsafe.Pointer(unsafe.SliceData(full))), len(full)) {
+			continue
+		}
+		for j := range full {
+			full[j] = clip.PointD{X: 5151.51 + float64(j), Y: -6262.62 - float64(tag)}
+		}
+		if len(c.kept) < 4000 {
+			c.kept = append(c.kept, keptPath{pd: full, dig: digPathD(full), op: c.opIndex, kind: "memory the caller reused after " + catalogueName(c, out)})
+		}
+		rememberOwned(keptPath{pd: full, dig: digPathD(full), kind: catalogueName(c, out)})
+		n++
+	}
+	// spare capacity behind a returned list: the caller appends to it
+	for _, ps := range out.ko64 {
+		full := ps[:cap(ps)]
+		if c.overlapsInput(uintptr(unsafe.Pointer(unsafe.SliceData(full))), len(full)) {
+			continue
+		}
+		for j := len(ps); j < len(full); j++ {
+			full[j] = clip.Path64{{X: 717171, Y: 1}, {X: 717172, Y: 2}, {X: 717170, Y: 3}}
+			n++
+		}
+	}
+	for _, ps := range out.koD {
+		full := ps[:cap(ps)]
+		if c.overlapsInput(uintptr(unsafe.Pointer(unsafe.SliceData(full))), len(full)) {
+			continue
+		}
+		for j := len(ps); j < len(full); j++ {
+			full[j] = clip.PathD{{X: 7171.71, Y: 1}, {X: 7171.72, Y: 2}, {X: 7171.7, Y: 3}}
+			n++
+		}
+	}
+	if n > 0 {
+		c.fire("scribble-result")
+	}
+}
+
+func catalogueName(c *Ctx, out *Outcome) string { return c.curKind }
+
+// Memory the harness (as caller) reused in earlier runs of this process. It
+// is kept alive here, so the garbage collector cannot hand it out again: if
+// its content changes, the library wrote to memory it had given away.
+// Only in non-race builds, where tasks never run in parallel for real.
+var processScribbles int64
+var ownedRing []keptPath
+
+func rememberOwned(k keptPath) {
+	if vsimrt.RaceBuild {
+		return
+	}
+	if len(ownedRing) >= 256 {
+		copy(ownedRing, ownedRing[64:])
+		ownedRing = ownedRing[:len(ownedRing)-64]
+	}
+	ownedRing = append(ownedRing, k)
+}
+
+func (c *Ctx) verifyOwned(class string) {
+	if vsimrt.RaceBuild {
+		return
+	}
+	n := 0
+	for _, k := range ownedRing {
+		var d uint64
+		if k.pd != nil {
+			d = digPathD(k.pd)
+		} else {
+			d = digPath64(k.p64)
+		}
+		if d != k.dig {
+			c.viol = append(c.viol, Violation{Class: class, Task: c.task, OpIndex: c.opIndex, OpKind: k.kind, Symptom: "returned-memory-reused",
+				Detail: "memory that an earlier call (" + k.kind + ") had returned to its caller, and that the caller still owns, was written again by the library: it was handed out twice or kept"})
+			continue // drop it: report once
+		}
+		ownedRing[n] = k
+		n++
+	}
+	ownedRing = ownedRing[:n]
 }
 
 func (c *Ctx) verifyKept(class string) {
@@ -1262,6 +1432,7 @@ func (c *Ctx) runOp(op *Op) Outcome {
 	if d == nil {
 		return Outcome{Enc: "unknown-op"}
 	}
+	c.curKind = op.K
 	var ob *Obj
 	if d.obj != "" {
 		ob = c.obj(op.O)
